@@ -144,30 +144,124 @@ def _site_env():
 
 
 class _AbstractPreference(ast.NodeTransformer):
-    """is_acceptable and (<which of several acceptable candidates to keep>)  ->  is_acceptable and PREFER"""
+    """<acceptance> and (<which of several acceptable candidates to keep>)  ->  <acceptance> and PREFER"""
 
-    def __init__(self):
+    def __init__(self, acc_name):
         self.found = []
+        self.acc_name = acc_name
 
     def visit_If(self, node):
         self.generic_visit(node)
         t = node.test
-        if isinstance(t, ast.BoolOp) and isinstance(t.op, ast.And) and len(t.values) == 2 and isinstance(t.values[0], ast.Name) and t.values[0].id == "is_acceptable":
+        if isinstance(t, ast.BoolOp) and isinstance(t.op, ast.And) and len(t.values) == 2 and isinstance(t.values[0], ast.Name) and t.values[0].id == self.acc_name:
             self.found.append(t.values[1])
             node.test = ast.BoolOp(op=ast.And(), values=[t.values[0], ast.Name(id="__prefer__", ctx=ast.Load())])
             ast.fix_missing_locations(node)
         return node
 
 
+def _site_roles(stmts):
+    """Roles of the local names at a candidate site, found by dataflow (never by spelling):
+    rec_if   - the 'if' whose body assigns the fields of the best match
+    acc      - the acceptance flag tested first by rec_if
+    length, cost, eff - from  acc = length >= self._min_overlap and cost <= eff * max_error_rate
+    score    - the value stored into best.score"""
+    rec = [n for st in stmts for n in ast.walk(st) if isinstance(n, ast.If) and sum(1 for x in n.body if isinstance(x, ast.Assign) and (chain(x.targets[0]) or "").startswith("best.")) >= 3]
+    if len(rec) != 1:
+        raise Unrecognised(f"candidate site: expected one 'if' that records the best match, found {len(rec)}")
+    rec = rec[0]
+    t = rec.test
+    if not (isinstance(t, ast.BoolOp) and isinstance(t.op, ast.And) and isinstance(t.values[0], ast.Name)):
+        raise Unrecognised(f"candidate site: the recording test is not '<acceptance flag> and <preference>': {src(t)[:80]}")
+    acc = t.values[0].id
+    defs = [n for st in stmts for n in ast.walk(st) if isinstance(n, ast.Assign) and chain(n.targets[0]) == acc]
+    if len(defs) != 1 or not (isinstance(defs[0].value, ast.BoolOp) and isinstance(defs[0].value.op, ast.And) and len(defs[0].value.values) == 2):
+        raise Unrecognised("candidate site: the acceptance flag is not a conjunction of two comparisons")
+    roles = {"acc": acc}
+    for cmp_ in defs[0].value.values:
+        if not (isinstance(cmp_, ast.Compare) and len(cmp_.ops) == 1):
+            raise Unrecognised("candidate site: acceptance conjunct is not a simple comparison")
+        sides = [cmp_.left, cmp_.comparators[0]]
+        txt = [src(x) for x in sides]
+        if any("_min_overlap" in x for x in txt):
+            other = [x for x in sides if "_min_overlap" not in src(x)]
+            if len(other) == 1 and isinstance(other[0], ast.Name):
+                roles["length"] = other[0].id
+        elif any("max_error_rate" in x for x in txt):
+            prod = [x for x in sides if "max_error_rate" in src(x)][0]
+            other = [x for x in sides if x is not prod]
+            if isinstance(other[0], ast.Name):
+                roles["cost"] = other[0].id
+            if isinstance(prod, ast.BinOp) and isinstance(prod.op, ast.Mult):
+                nm = [x for x in (prod.left, prod.right) if isinstance(x, ast.Name) and x.id != "max_error_rate"]
+                if len(nm) == 1:
+                    roles["eff"] = nm[0].id
+    for x in rec.body:
+        if isinstance(x, ast.Assign) and chain(x.targets[0]) == "best.score" and isinstance(x.value, ast.Name):
+            roles["score"] = x.value.id
+    missing = [k for k in ("length", "cost", "eff", "score") if k not in roles]
+    if missing:
+        raise Unrecognised(f"candidate site: could not identify the variables playing the roles {missing}")
+    return roles
+
+
+def _slice_dead(stmts, keep=frozenset()):
+    """Program slice for the recording decision: assertions (they only add failing paths) and pure assignments
+    to local names that nothing reads any more (after the preference was abstracted) are removed."""
+    class Drop(ast.NodeTransformer):
+        def __init__(self, dead):
+            self.dead = dead
+
+        def visit_Assert(self, node):
+            return None
+
+        def visit_Assign(self, node):
+            if len(node.targets) == 1 and isinstance(node.targets[0], ast.Name) and node.targets[0].id in self.dead and not any(isinstance(x, ast.Call) and chain(x.func) not in ("min", "max") for x in ast.walk(node.value)):
+                return None
+            return node
+
+    def fix(body):
+        for n in body:
+            for f in ("body", "orelse"):
+                if hasattr(n, f) and isinstance(getattr(n, f), list):
+                    setattr(n, f, fix(getattr(n, f)))
+                    if f == "body" and not getattr(n, f):
+                        n.body = [ast.Pass()]
+        return body
+
+    for _ in range(5):
+        loaded = {x.id for s_ in stmts for x in ast.walk(s_) if isinstance(x, ast.Name) and isinstance(x.ctx, ast.Load)}
+        assigned = {s_.targets[0].id for st in stmts for s_ in ast.walk(st) if isinstance(s_, ast.Assign) and len(s_.targets) == 1 and isinstance(s_.targets[0], ast.Name)}
+        # names that the rule itself reads from the final environment stay alive
+        dead = assigned - loaded - set(keep)
+        new = []
+        for st in stmts:
+            r = Drop(dead).visit(st)
+            if r is not None:
+                new.append(r)
+        new = fix(new)
+        for st in new:
+            ast.fix_missing_locations(st)
+        if ast.dump(ast.Module(body=new, type_ignores=[])) == ast.dump(ast.Module(body=stmts, type_ignores=[])):
+            break
+        stmts = new
+    return stmts
+
+
 def _check_site(repo, report, label, stmts, loc, length_idx_hint):
     import copy
 
-    tr = _AbstractPreference()
+    roles = _site_roles(stmts)
+    tr = _AbstractPreference(roles["acc"])
     stmts2 = [tr.visit(copy.deepcopy(s)) for s in stmts]
+    stmts2 = _slice_dead(stmts2, keep={roles["length"], roles["cost"], roles["eff"], roles["score"]})
     env = _site_env()
     env["__prefer__"] = Obj("PREFER")
     rows = explore(repo, stmts2, env, inline=False, integer=False, loop_mode="forbid", max_rows=20000)
-    stale_origin = any(isinstance(x, ast.Name) and x.id == "origin" for p in tr.found for x in ast.walk(p)) and not any(isinstance(s, ast.Assign) and chain(s.targets[0]) == "origin" for s in stmts)
+    pref_names = {x.id for p in tr.found for x in ast.walk(p) if isinstance(x, ast.Name)}
+    site_assigned = {chain(x.targets[0]) for st in stmts for x in ast.walk(st) if isinstance(x, ast.Assign)}
+    site_env_names = set(_site_env())
+    stale_origin = bool((pref_names - site_assigned - site_env_names - {"__prefer__"}) | ({"origin"} & pref_names - site_assigned))
     report.saw(function="Aligner.locate", file="src/cutadapt/_align.pyx", valuations=len(rows))
     bad2, bad3 = [], []
     n_rec = 0
@@ -177,9 +271,9 @@ def _check_site(repo, report, label, stmts, loc, length_idx_hint):
         if not stores:
             continue
         n_rec += 1
-        length = r.env.get("length")
-        cost = r.env.get("cost")
-        ceff = r.env.get("cur_effective_length")
+        length = r.env.get(roles["length"])
+        cost = r.env.get(roles["cost"])
+        ceff = r.env.get(roles["eff"])
         judge = Executor(None, r.valuation, integer=False)
         try:
             ok_len = judge.compare(ast.GtE(), judge.num(length), Lin.atom("self._min_overlap"))
@@ -191,7 +285,7 @@ def _check_site(repo, report, label, stmts, loc, length_idx_hint):
             bad2.append(("a candidate is recorded although", {"length>=min_overlap": ok_len, "cost<=budget": ok_cost}))
         # what is recorded: score, cost, origin of this candidate, its reference stop and the query stop
         rec = {e[1]: e[2] for e in stores}
-        if rec.get("BEST.cost") != vkey(cost) or rec.get("BEST.score") != vkey(r.env.get("score")):
+        if rec.get("BEST.cost") != vkey(cost) or rec.get("BEST.score") != vkey(r.env.get(roles["score"])):
             bad2.append(("recorded cost/score are not those of the candidate", rec))
         if stale_origin:
             stale = True
